@@ -433,6 +433,7 @@ pub fn replay(unit: &str, bytes: Option<Vec<Vec<u8>>>) -> i32 {
         "k_c07_hex_to_bools" => go!(crate::lexer::verif_hook_util::contract_hex_to_bools),
         "k_c07_octet_to_bits" => go!(crate::validator::verif_hook_utils::contract_octet_to_bits),
         "k_c07_bits_to_octets" => go!(crate::validator::verif_hook_utils::contract_bits_to_octets),
+        "k_c07_bits_to_octets_long" => go!(crate::validator::verif_hook_utils::contract_bits_to_octets_long),
         _ => { println!("REPLAY-ERROR unknown unit {unit}"); 2 }
     }
 }
